@@ -99,14 +99,22 @@ fn check(text: &[u8], rep: &mut Reporter, case_idx: u64) {
         schedules.push(Schedule::InterruptedAt(i));
         schedules.push(Schedule::ZeroAt(i));
     }
-    for sch in schedules {
-        let mut sink = FaultSink::new(sch);
+    // every schedule once with a plain sink and once with a sink whose write_vectored gathers
+    let schedules: Vec<(Schedule, bool)> = schedules.iter().map(|s| (*s, false)).chain(schedules.iter().map(|s| (*s, true))).collect();
+    for (sch, vectored) in schedules {
+        let mut sink = if vectored { FaultSink::new_vectored(sch) } else { FaultSink::new(sch) };
         let res = cur::write_cache_to(text, &mut sink);
         rep.count("evaluations", 1);
         rep.count("schedules", 1);
+        if vectored {
+            rep.count("schedules_with_gathering_vectored_sink", 1);
+            if sink.vectored_calls > 0 {
+                rep.count("vectored_write_calls_observed", sink.vectored_calls as u64);
+            }
+        }
         if sink.fault_hit {
             rep.count("schedules_where_a_fault_hit", 1);
-            rep.distinct(Fp::new().bytes(&canonical).str(&format!("{sch:?}")).get());
+            rep.distinct(Fp::new().bytes(&canonical).str(&format!("{sch:?}{vectored}")).get());
             // where did the first faulty call land
             let ev = sink.events.iter().find(|e| match e.outcome {
                 Outcome::Accepted(n) => n < e.offered,
@@ -126,7 +134,7 @@ fn check(text: &[u8], rep: &mut Reporter, case_idx: u64) {
         };
         let mk = |sink: &FaultSink| {
             let mut d = mapping_detail(text, "");
-            d.set("schedule", Json::s(format!("{sch:?}")));
+            d.set("schedule", Json::s(format!("{sch:?}{}", if vectored { " (sink gathers write_vectored buffers)" } else { "" })));
             d.set("write_calls", Json::i(sink.calls as u64));
             d.set("canonical_len", Json::i(canonical.len() as u64));
             d.set("accepted_len", Json::i(sink.accepted.len() as u64));
